@@ -114,6 +114,14 @@ def basisRow {K : Type} [HasConj K] {d : Nat} (b_alpha : Mat K d d) : Vec K (d *
 def basisConjRow {K : Type} [HasConj K] {d : Nat} (b_alpha : Mat K d d) : Vec K (d * d) :=
   flat (conjM (b_alpha))
 
+/-- matrix_basis.py:calc_matrix_expansion_coefficient `for bi in basis: c = np.trace(np.conjugate(np.transpose(bi)) @ from_mat)` -/
+def expansionCoeff {K : Type} [Add K] [Mul K] [Zero K] [HasConj K] {d : Nat} (bi from_mat : Mat K d d) : K :=
+  Mat.trace (Mat.mul (conjM (Mat.transpose (bi))) (from_mat))
+
+/-- matrix_basis.py:calc_mat_from_coefficient_basis `for i, bi in enumerate(basis): ci = coeff[i]; mat += ci * bi` -/
+def matFromCoeffTerm {K : Type} [Add K] [Mul K] [Zero K] [HasConj K] {d : Nat} (acc : Mat K d d) (ci : K) (bi : Mat K d d) : Mat K d d :=
+  Mat.add acc (Mat.smul (ci) (bi))
+
 /-- matrix_basis.py:get_comp_basis position of the 1 in the basis element built at loop step (outer, inner) -/
 def compEntry (rowMajor : Bool) (outer inner : Nat) : Nat × Nat :=
   if rowMajor then (outer, inner) else (inner, outer)
